@@ -73,6 +73,14 @@ def process_failures(pid, tier, seed, spaces, aggs):
                 if pre in seen_pre:
                     continue
                 seen_pre.add(pre)
+                # a listed finding is recognised on the raw execution (its labels are a superset of the minimal ones) BEFORE bucketing and minimisation,
+                # so known findings can never starve a new violation of the reporting budget
+                kf0 = findings.match(known, sp.name, f[1], f[2], f[4])
+                if kf0 is not None:
+                    sig0 = 'kf:' + kf0['what'][:200]
+                    if sig0 not in known_hits:
+                        known_hits[sig0] = (kf0, None, '%s: %s at %s' % (sp.name, ', '.join(f[1]), f[2]))
+                    continue
                 key = _re.sub(r'\d+', 'N', f[2]) + '|' + _re.sub(r'[0-9a-fx]{3,}', 'N', str(f[4]))[:40]
                 buckets.setdefault(key, []).append(f)
             todo = []
@@ -88,10 +96,14 @@ def process_failures(pid, tier, seed, spaces, aggs):
             if sp.kind == 'choice':
                 choices, labels, path, exp, obs = f
                 if nmin >= 60 or time.time() - t_min > 60:
-                    continue
-                nmin += 1
-                m = core.minimise(sp, choices)
-                if m is None:
+                    m = 'unminimised'       # budget spent: still reported, with the labels of the raw execution
+                else:
+                    nmin += 1
+                    m = core.minimise(sp, choices)
+                if m == 'unminimised':
+                    fail = (path, exp, obs)
+                    case = None
+                elif m is None:
                     # does not reproduce alone: order-dependent (library state outside the object)
                     labels = list(labels) + ['order-dependent']
                     fail = (path, exp, obs)
@@ -112,7 +124,7 @@ def process_failures(pid, tier, seed, spaces, aggs):
             sig = sig_of(sp.name, labels, fail[0])
             if sig in violations or sig in known_hits:
                 continue
-            kf = findings.match(known, sp.name, labels, fail[0])
+            kf = findings.match(known, sp.name, labels, fail[0], fail[2])
             rp = write_replay(pid, tier, seed, sp.name, sp.kind, choices, labels, desc, fail, case)
             text = '%s: %s at %s expected %s observed %s' % (
                 sp.name, ', '.join(labels) or '(all defaults)', fail[0],
